@@ -34,8 +34,7 @@ META = {
             'zero-padded DateTimeFormatUtil formatters; the min-value filter precedes emission; type_name and inner type '
             'come from the same _determine_date_time_types arguments; to_pm stays within 0..23',
     'note': 'Not decided: value relations (start < end, a definite TIMEX equals its value, calendar validity of a formatted '
-            'datetime object is guaranteed by datetime itself), the `mod` branches of __add_period_to_resolution (they emit '
-            'start/end without the invalid-date filter), raw datetime(...) constructions from match groups (a ValueError there '
+            'datetime object is guaranteed by datetime itself), raw datetime(...) constructions from match groups (a ValueError there '
             'is swallowed by Model.parse and loses the entities instead of yielding "not resolved"), options other than NONE '
             '(time-zone and alternative extractors are option-gated and exempt).',
     'technique': 'class-hierarchy resolution of extractor/parser slots through the source index, evaluation of Constants.* / '
@@ -285,6 +284,7 @@ def rule_dispatch(chk, idx):
     if len(regs) < 5:
         raise AnalysisError('only %d DateTimeModel(parser, extractor) registrations found' % len(regs))
     done = set()
+    gated_seen = set()
     for mod, call, pcall, ecall in regs:
         pcls = idx.resolve_class(mod, pcall.func)
         if pcls is None:
@@ -300,6 +300,9 @@ def rule_dispatch(chk, idx):
         types = {}
         for slot, gated in sorted(slots.items()):
             if gated:
+                if (ek, slot) in gated_seen:
+                    continue
+                gated_seen.add((ek, slot))
                 chk.exempt(rid, ek.mod.path, '%s.extract[%s]' % (ek.name, slot),
                            'slot only used under a non-default DateTimeOptions flag; the property is stated for default options',
                            'option-gated slot ' + slot)
@@ -593,18 +596,31 @@ def show_nf(nf):
 # ---------------------------------------------------------------------------------------------------
 # C11.min-guard
 
-def guard_before(fn, write_stmt, value_names, marker_ok):
-    """is there, before write_stmt in fn's top-level body, an `if ...: return` whose test calls
-    <v>.startswith(<marker>) for every v in value_names?"""
+def guard_dominates(fn, write_stmt, value_names, marker_ok, par):
+    """is write_stmt dominated by an `if <v>.startswith(<marker>) [or ...]: return` for every v in value_names?
+    (a guard dominates when it is an earlier sibling of the statement or of one of its ancestors)"""
+    def or_leaves(t):
+        if isinstance(t, ast.BoolOp) and isinstance(t.op, ast.Or):
+            for v in t.values:
+                yield from or_leaves(v)
+        else:
+            yield t
+
     seen = set()
-    for s in fn.body:
-        if s is write_stmt:
-            break
-        if isinstance(s, ast.If) and s.body and isinstance(s.body[-1], ast.Return) and not s.orelse:
-            for c in ast.walk(s.test):
-                if isinstance(c, ast.Call) and isinstance(c.func, ast.Attribute) and c.func.attr == 'startswith' \
-                        and isinstance(c.func.value, ast.Name) and c.args and marker_ok(c.args[0]):
-                    seen.add(c.func.value.id)
+    cur = write_stmt
+    while cur is not fn and cur in par:
+        p = par[cur]
+        for block in (getattr(p, 'body', None), getattr(p, 'orelse', None)):
+            if isinstance(block, list) and any(cur is s for s in block):
+                for s in block:
+                    if s is cur:
+                        break
+                    if isinstance(s, ast.If) and s.body and isinstance(s.body[-1], ast.Return) and not s.orelse:
+                        for c in or_leaves(s.test):
+                            if isinstance(c, ast.Call) and isinstance(c.func, ast.Attribute) and c.func.attr == 'startswith' \
+                                    and isinstance(c.func.value, ast.Name) and c.args and marker_ok(c.args[0]):
+                                seen.add(c.func.value.id)
+        cur = p
     return value_names <= seen
 
 
@@ -620,7 +636,7 @@ def add(self, resolutions, dtype, mod, result):
 
 def rule_min_guard(chk, idx):
     rid = 'C11.min-guard'
-    chk.rule(rid, 'the min-value / invalid-date filter dominates the emission of resolved values', floor=2, control=True)
+    chk.rule(rid, 'the min-value / invalid-date filter dominates the emission of resolved values', floor=3, control=True)
     bm = idx.cls(PKG + '.base_merged.BaseMergedParser')
     chk.consulted(bm.mod.path)
     ev = make_evalc(idx, bm.mod, bm)
@@ -630,33 +646,53 @@ def rule_min_guard(chk, idx):
             return True
         return ev(e) == '0001-01-01'
 
-    def check(fn, cname, control=False):
-        res = fn.args.args[-1].arg
+    def check(fn):
+        """[(stmt, names, dominated, on_mod_path)] for every `result[...] = <resolved value>`"""
+        params = [a.arg for a in fn.args.args]
+        res, modp = params[-1], params[-2]
+        par = parents_of(fn)
         results = []
-        for s in fn.body:      # only emissions on the unmodified path (top level of the function)
+        for s in own_walk(fn):
             if isinstance(s, ast.Assign) and len(s.targets) == 1 and isinstance(s.targets[0], ast.Subscript) \
                     and isinstance(s.targets[0].value, ast.Name) and s.targets[0].value.id == res:
                 names = {n.id for n in ast.walk(s.value) if isinstance(n, ast.Name)}
-                results.append((s, names, guard_before(fn, s, names, marker_ok)))
+                on_mod = False
+                cur = s
+                while cur in par and cur is not fn:
+                    p = par[cur]
+                    if isinstance(p, ast.If) and any(isinstance(n, ast.Name) and n.id == modp for n in ast.walk(p.test)) \
+                            and any(cur is x for x in p.body):
+                        on_mod = True
+                    cur = p
+                results.append((s, names, guard_dominates(fn, s, names, marker_ok, par), on_mod))
+        results.sort(key=lambda r: r[0].lineno)
         return results
 
-    c = check(ast.parse(MINGUARD_CONTROL).body[0], 'control')
+    c = check(ast.parse(MINGUARD_CONTROL).body[0])
     chk.control(rid, len(c) == 1 and c[0][2] is False)
-    total = 0
     for name in ('__add_single_date_time_to_resolution', '__add_period_to_resolution'):
         fn = bm.methods.get(name)
         if fn is None:
             raise AnalysisError('anchor vanished: BaseMergedParser.%s' % name)
-        res = check(fn, name)
+        res = check(fn)
         if not res:
-            raise AnalysisError('BaseMergedParser.%s: no top-level emission `result[...] = value` found' % name)
-        for i, (s, names, ok) in enumerate(res):
-            total += 1
+            raise AnalysisError('BaseMergedParser.%s: no emission `result[...] = value` found' % name)
+        plain = [r for r in res if not r[3]]
+        modded = [r for r in res if r[3]]
+        for i, (s, names, ok, _) in enumerate(plain):
             k = ev(s.targets[0].slice)
             chk.judge(ok, rid, bm.mod.path, 'BaseMergedParser.%s' % name,
-                      'emission #%d of key %s guarded by startswith(min marker) -> return' % (i + 1, k if isinstance(k, str) else '<computed>'),
-                      'the value is emitted without a preceding `if ... %s.startswith(<min-value marker>): return`: a date that '
+                      'emission #%d of key %s dominated by `startswith(min marker) -> return`' % (i + 1, k if isinstance(k, str) else '<computed>'),
+                      'the value is emitted without a dominating `if ... %s.startswith(<min-value marker>): return`: a date that '
                       'could not be built (0001-01-01) would be reported as a value' % '/'.join(sorted(names)), s.lineno)
+        if modded:
+            bad = [r for r in modded if not r[2]]
+            chk.judge(not bad, rid, bm.mod.path, 'BaseMergedParser.%s[mod branches]' % name,
+                      'emissions under a modifier (before/after/since) not dominated by the invalid-date filter: %d of %d'
+                      % (len(bad), len(modded)),
+                      'with a before/after/since modifier the start/end of a period is emitted without the invalid-date filter '
+                      '(lines %s): an impossible date in the range comes out as the value "0001-01-01" instead of "not resolved"'
+                      % ', '.join(str(r[0].lineno) for r in bad), bad[0][0].lineno if bad else fn.lineno)
     # overrides elsewhere must not exist silently
     for c2 in idx.subclasses(bm):
         for name in ('_BaseMergedParser__add_single_date_time_to_resolution', '_generate_from_resolution'):
